@@ -334,6 +334,7 @@ func (c *Client) mergeLatest(msg []byte) error {
 		}
 
 		// msg (== config) is in the past, so we need to update it.
+		vhook(c, "cfgsnap")
 		c.latestMu.Lock()
 		latestMsg := c.latestMsg
 		c.latestMu.Unlock()
@@ -359,6 +360,7 @@ const (
 // msgNow means msg was exactly c.latest, and
 // msgFuture means msg was from after c.latest, which has now been updated.
 func (c *Client) mergeLatestMem(msg []byte) (when int, err error) {
+	vhook(c, "merge", len(msg))
 	if len(msg) == 0 {
 		// Accept empty msg as the unsigned, empty timeline.
 		c.latestMu.Lock()
@@ -481,6 +483,7 @@ func (c *Client) checkTrees(older tlog.Tree, olderNote []byte, newer tlog.Tree, 
 
 // checkRecord checks that record #id's hash matches data.
 func (c *Client) checkRecord(id int64, data []byte) error {
+	vhook(c, "check", id)
 	c.latestMu.Lock()
 	latest := c.latest
 	c.latestMu.Unlock()
